@@ -24,5 +24,5 @@ def combs(ctx):
 
 
 RULES = [gfi.dist_simulate, gfi.dist_assess, gfi.collision_helpers, handlers, fns, gfi.handler_stack_ownership, combs,
-         gfi.cond_trace_rules, gfi.merge_polarity, gfi.vmap_kwargs_sig]
+         gfi.cond_trace_rules, gfi.trace_accessors, gfi.merge_polarity, gfi.vmap_kwargs_sig]
 FLOOR = 20
